@@ -160,12 +160,37 @@ def _wrap_patterns(ns):
     _wrap_cfuncs(ns)
     """compiled patterns created while the module body ran -> shims generated from the same pattern text"""
     import re
-    for k, v in list(ns.items()):
+
+    def shim(v):
+        try:
+            return regex.SymPattern(v)
+        except Exception:
+            return v
+
+    def conv(v):
+        """a pattern, or a list / tuple / dict holding patterns (one level) -> the same with shims; None when nothing changed"""
         if isinstance(v, re.Pattern):
-            try:
-                ns[k] = regex.SymPattern(v)
-            except Exception:
-                pass
+            return shim(v)
+        if type(v) in (list, tuple) and any(isinstance(x, re.Pattern) for x in v):
+            return type(v)(shim(x) if isinstance(x, re.Pattern) else x for x in v)
+        if type(v) is dict and any(isinstance(x, re.Pattern) for x in v.values()):
+            return {k: (shim(x) if isinstance(x, re.Pattern) else x) for k, x in v.items()}
+        return None
+
+    modname = ns.get("__name__")
+    for k, v in list(ns.items()):
+        n = conv(v)
+        if n is not None:
+            ns[k] = n
+        elif isinstance(v, type) and getattr(v, "__module__", None) == modname:
+            # patterns hoisted to class attributes (compiled once while the class body ran)
+            for ck, cv in list(vars(v).items()):
+                cn = conv(cv)
+                if cn is not None:
+                    try:
+                        setattr(v, ck, cn)
+                    except Exception:
+                        pass
 
 
 class Profile:
